@@ -97,7 +97,8 @@ Section Decomp.
     unfold tmpf, tmpf_of. fold tmpd. intros E. apply (f_equal (@length N)) in E. rewrite app_length in E. simpl in E. lia.
   Qed.
 
-  Definition InvA (s : st) : Prop := SInv tmpd tmpf fs0 s /\ valids s = valids0.
+  Definition InvA (s : st) : Prop :=
+    SInv tmpd tmpf fs0 s /\ valids s = valids0 /\ Forall2 trel (s_tens s) tens.
   Definition VWeak (s : st) : Prop :=
     forall h, nth_error (valids s) h = nth_error valids0 h
               \/ (nth_error (valids s) h = Some false /\ In h ov).
@@ -112,9 +113,12 @@ Section Decomp.
   Proof. intros [H1 H2]. split; [apply SInv_log; exact H1 | exact H2]. Qed.
   Lemma InvA_sem a s : okA a = true -> InvA s -> InvA (fst (sem a s)).
   Proof.
-    intros Ha [H1 H2]. apply andb_prop in Ha. destruct Ha as [Ha1 Ha2]. split.
+    intros Ha (H1 & H2 & H3). apply andb_prop in Ha. destruct Ha as [Ha1 Ha2].
+    assert (Hi : is_invalidate a = false) by (destruct (is_invalidate a); [discriminate|reflexivity]).
+    split; [|split].
     - apply sem_SInv; auto using T_tmpd, T_tmpf, tmp_ne.
-    - rewrite sem_valids; [exact H2 | destruct (is_invalidate a); [discriminate|reflexivity]].
+    - rewrite sem_valids; [exact H2 | exact Hi].
+    - apply sem_trel; assumption.
   Qed.
   Lemma A_acts c l s : forallb okA l = true -> InvA s -> InvA (fst (exec_acts c l s)).
   Proof. apply exec_acts_pres; [apply InvA_log | apply InvA_sem]. Qed.
@@ -204,7 +208,7 @@ Section Decomp.
 
   Lemma InvA_init : InvA (init fs0 tens).
   Proof.
-    split; [|reflexivity]. split.
+    split; [|split; [reflexivity|simpl; induction tens; constructor; [apply trel_refl|assumption]]]. split.
     - unfold FInv, init. simpl. repeat split; auto; try discriminate.
       intros p t Hp. rewrite (H_fresh p Hp). discriminate.
     - intros p Hp. left. simpl. apply H_fresh. exact Hp.
@@ -259,7 +263,7 @@ Section Decomp.
         * intros p t Hp. rewrite (L2 p Hp). destruct (path_eqb tmpf p); [discriminate|apply H3; exact Hp].
       + intros p Hp. simpl. rewrite (L2 p Hp). destruct (path_eqb tmpf p); [left; reflexivity|apply HT; exact Hp].
       + simpl. left; reflexivity.
-      + intros h. left. unfold valids in *. simpl. rewrite HV. reflexivity.
+      + intros h. left. unfold valids in *. simpl. rewrite (proj1 HV). reflexivity.
   Qed.
 
   (* the cleanup handlers: they complete, or the injected fault hit one of them *)
